@@ -66,7 +66,10 @@ RULE = ("events = 19 public-API operations on shared module-level decorator/pass
         "rule space (17.8k host models) is rewritten by the shared object after whole-space histories: one chain per "
         "rotation of the space's dimension list x {forward, backward} (every instance preceded by its neighbour along "
         "every dimension), each chain in one forked process, compared with goldens computed in children forked from a "
-        "pristine parent; (cross) every ordered pair (A, B) of first-firing instances of different rules")
+        "pristine parent; (cross) every ordered pair (A, B) of first-firing instances of different rules; "
+        "(fusions) the same chain exploration for the ORT-fusion rule objects: per C19 fusion family every configuration "
+        "of its plan (quick: 3.3k models) built and fused by the family's single-fusion functions after whole-family "
+        "histories (quick: enumeration order forward and backward; thorough: also with the first dimensions varying fastest), against fork-fresh goldens")
 ASSUMPTIONS = [
     "the golden of an event is its output as the first event of a fresh interpreter under PYTHONHASHSEED=0",
     "fork() gives a child an exact copy of the interpreter state (tree/bfs phases only; cross-checked per job "
@@ -152,8 +155,11 @@ def plan(tier, seed):
         json.dump(gold, f)
     chunk = cfg["seed_chunk"]
     ev_chunks = [EVENT_NAMES[i:i + chunk] for i in range(0, len(EVENT_NAMES), chunk)]
-    phases = ["bfs", "seed", "family", "hist"] + (["tree"] if cfg["tree"] else []) + ["rules", "cross"]
-    rule_ids = ss.run_job(RULES_DRIVER, {"mode": "list"})["rules"]
+    # long single jobs (bfs, a whole fusion family, a whole rule space) first, so that they overlap with the many short ones
+    phases = ["bfs", "fusions", "rules", "cross", "seed", "family", "hist"] + (["tree"] if cfg["tree"] else [])
+    listing = ss.run_job(RULES_DRIVER, {"mode": "list", "tier": tier})
+    rule_ids = listing["rules"]
+    fusion_fams = listing["fusion_families"]
     nblk = 16
     blocks = [list(range(i, len(rule_ids), nblk)) for i in range(nblk)]
     if os.environ.get("C14_PHASES"):  # development aid only
@@ -179,6 +185,9 @@ def plan(tier, seed):
             base["tier"] = tier
         elif ph == "cross":
             base["block"] = ch.all("block", blocks)
+            base["tier"] = tier
+        elif ph == "fusions":
+            base["family"] = ch.all("fusion_family", fusion_fams)
             base["tier"] = tier
         return base
 
@@ -374,7 +383,7 @@ def _verify_event(hist):
 
 def execute(item):
     return {"bfs": _ex_bfs, "seed": _ex_seed, "family": _ex_family, "hist": _ex_hist, "tree": _ex_tree,
-            "rules": _ex_rules, "cross": _ex_cross}[item["kind"]](item)
+            "rules": _ex_rules, "cross": _ex_cross, "fusions": _ex_rules}[item["kind"]](item)
 
 
 def _rules_job(gold, job):
@@ -388,7 +397,11 @@ def _rules_job(gold, job):
 def _ex_rules(item):
     """one shipped rule object: every bound-0 instance of its C05 space after 2 x D whole-space histories"""
     gold = _gold(item)
-    res = _rules_job(gold, {"mode": "chain", "rule": item["rule"], "tier": item.get("tier", "quick")})
+    if item["kind"] == "fusions":
+        item = dict(item, rule="fusion:" + item["family"])
+        res = _rules_job(gold, {"mode": "fusion", "family": item["family"], "tier": item.get("tier", "quick")})
+    else:
+        res = _rules_job(gold, {"mode": "chain", "rule": item["rule"], "tier": item.get("tier", "quick")})
     if res.get("crashes"):
         raise RuntimeError(f"C14 rules phase: {res['crashes']} forked children of rule {item['rule']} did not answer")
     viols = []
